@@ -354,7 +354,7 @@ pub fn c12_cases(rng: &mut Rng, tier: &str) -> (Vec<Case>, bool) {
         });
     }
     // exhaustive single-blank insertion / deletion / case flip for short lines
-    let short_lines = ["IF X THEN Y", "FORI=1TO10STEP2", "PRINT\"A B\";A B", "GO TO 10:REM x y", "A$=\"x\"+B$", "DATA 1, 2 :PRINT A", "X=1<=2<>3", "NEXTI:RETURN", "? 1 . 5", "ATOM=SCORE",
+    let short_lines = ["IF X THEN Y", "FORI=1TO10STEP2", "PRINT\"A B\";A B", "GO TO 10:REM x y", "A$=\"x\"+B$", "DATA 1, 2 :PRINT A", "X=1<=2<>3", "NEXTI:RETURN", "? 1 . 5", "ATOM=SCORE", "PRINT2E+3", "PRINT 2E-3", "X=1E5", "? 2 E + 3 E - 1", "PRINT1.5E+2E", "X=.5E+.5",
         // an identifier spelled exactly like text that occurs earlier on the line inside a literal / DATA item
         "?\"n\";:n=5:?N", "?\"Count\":Count=1", "DATA k:k=7", "a$=\"a\":a=1"];
     for line in short_lines {
